@@ -34,7 +34,8 @@ import (
 )
 
 type runResult struct {
-	cf      int // call flags recorded by proxy.onNEP17Payment (-1: not run)
+	cf      int           // call flags recorded by proxy.onNEP17Payment in this execution (-1: not run)
+	cfBy    map[int32]int // the same for every contract that recorded "cf" in this execution, by contract id
 	halt    bool
 	msg     string // fault message
 	writes  int    // keys put or deleted in the execution's private store
@@ -76,10 +77,13 @@ func (w *world) run(script []byte, entry callflag.CallFlag, extraSigners ...util
 	res.notifs = len(ic.Notifications)
 	res.tree = ic.VM.GetInvocationTree()
 	res.cf = -1
-	if w.proxyID != 0 {
-		for _, kv := range b.Put { // only a value written by THIS execution counts (storage key = prefix, id LE, "cf")
-			if len(kv.Key) == 7 && string(kv.Key[5:]) == "cf" && int32(binary.LittleEndian.Uint32(kv.Key[1:5])) == w.proxyID {
-				res.cf = int(bigint.FromBytes(kv.Value).Int64())
+	res.cfBy = map[int32]int{}
+	for _, kv := range b.Put { // only a value written by THIS execution counts (storage key = prefix, id LE, "cf")
+		if len(kv.Key) == 7 && string(kv.Key[5:]) == "cf" {
+			id := int32(binary.LittleEndian.Uint32(kv.Key[1:5]))
+			res.cfBy[id] = int(bigint.FromBytes(kv.Value).Int64())
+			if id == w.proxyID && w.proxyID != 0 {
+				res.cf = res.cfBy[id]
 			}
 		}
 	}
